@@ -18,6 +18,7 @@ CONSTANTS
   MaxDamage = 0
   DamageKinds = {}
   CrcQuarantinesBlock = FALSE
+  MinOpsBeforeCrash = 0
 INIT MCInit
 NEXT MCNext
 INVARIANTS VerdictOk Refines
